@@ -13,7 +13,10 @@ Request:
 Reply: {"nodes":[per node in document order: {"k":..,"get":ctx|{"e":key}} (set, seq, split),
   {"k":..,"seen":ctx} (store, ucfs, mkf), {"name":str|null-if-unformatted} (mkf: the name it gives to
   `(0, {})`; write, cache)], "fold":ctx|{"e":key} (the specification fold of the whole tree),
-  "out":{"r":[[data,ctx],..]}|{"unmodelled":true}|null} -/
+  "spec":[per node: the same record predicted by `ctxAt`/`leafFinal`/`fold`, or null where the prefix of the node
+  has an unresolved key], "cones":[per node: [["seq", number of earlier children] | ["split"], ..]],
+  "out":{"r":[[data,ctx],..] (`run` on the built state), "ref": `runRef`, "plain": `runPlain`,
+  "no_consumer": bool}|{"unmodelled":true}|null} -/
 open Lean Lena Lena.Drv Lena.Val Lena.C13
 
 def leafJson : Leaf → Json
@@ -132,6 +135,29 @@ partial def observe (n : Nat) (names : Array String) (ok : OutKeys) : St → Lis
     Json.mkObj [("k", "split"), ("get", resJson names (getCtx n (.split bs)))] ::
       (bs.map (observe n names ok)).flatten
 
+/-- the paths of all nodes in document order -/
+partial def allPaths : Tree → List (List Nat)
+  | t => [] :: ((t.children.zipIdx.map fun (c, i) => (allPaths c).map (i :: ·)).flatten)
+
+/-- the specification's prediction for the node at `p`: what the element holds if the one top-down fold
+delivers a context to it (`ctxAt`, `leafFinal`, `fold`), `null` if the statement defines nothing -/
+def specObs (n : Nat) (names : Array String) (ok : OutKeys) (t : Tree) (p : List Nat) : Json :=
+  match t.at? p, ctxAt n t p (Val.empty n) with
+  | some (.leaf e), some x => (observe n names ok (leafFinal n e x)).headD Json.null
+  | some (.seq kind cs), some x => Json.mkObj [("k", "seq"), ("get", resJson names (fold n (.seq kind cs) x))]
+  | some (.split bs), some x => Json.mkObj [("k", "split"), ("get", resJson names (fold n (.split bs) x))]
+  | _, _ => Json.null
+
+def coneJson (t : Tree) (p : List Nat) : Json :=
+  match cone t p with
+  | none => Json.null
+  | some k => ofList (fun (st : ConeStep) => match st with
+      | .seq earlier => Json.arr #[Json.str "seq", ofNat earlier.length]
+      | .split => Json.arr #[Json.str "split"]) k
+
+def flowJson (names : Array String) (r : List Item) : Json :=
+  ofList (fun (it : Item) => Json.arr #[ofInt it.1, ctxJson names it.2]) r
+
 def toFlow (names : Array String) (j : Json) : Option (List Item) := do
   let a ← arr? j
   let cs ← a.toList.mapM (toCtx names)
@@ -153,10 +179,17 @@ def handle (j : Json) : Json :=
           match toFlow names (getD j "flow"), toFlow names (getD j "src") with
           | some fl, some src =>
             match run n ok src st fl with
-            | some r => Json.mkObj [("r", ofList (fun (it : Item) => Json.arr #[ofInt it.1, ctxJson names it.2]) r)]
+            | some r => Json.mkObj [("r", flowJson names r),
+                ("ref", match runRef n ok src t (Val.empty n) fl with
+                  | some r' => flowJson names r'
+                  | none => Json.null),
+                ("plain", flowJson names (runPlain src t fl)), ("no_consumer", Json.bool t.noConsumer)]
             | none => Json.mkObj [("unmodelled", Json.bool true)]
           | _, _ => err "bad flow"
+      let paths := allPaths t
       Json.mkObj [("nodes", Json.arr (observe n names ok st).toArray),
+                  ("spec", ofList (specObs n names ok t) paths),
+                  ("cones", ofList (coneJson t) paths),
                   ("fold", resJson names (fold n t (Val.empty n))), ("out", out)]
     | _, _, _ => err "bad build args"
   | _ => err "unknown op"
